@@ -112,6 +112,17 @@ theorem map_pull_none (f id : Nat) (r : Ty) (it g dflt : Val) (rest : List Val) 
     pull (f + 20) (mapped id r it g dflt) σ = (.ok none, σ1) := by
   simp only [pull, bind_def, map_call_none f id r it g dflt rest σ σ1 hs]; rfl
 
+/-- more fuel does not change what an iterator yields -/
+theorem Pulls.lift {it : Val} {f g : Nat} {σ σ' : St} {xs : List Val} (h : Pulls it f σ xs σ') (hle : f ≤ g) :
+    Pulls it g σ xs σ' := by
+  induction h generalizing g with
+  | @done f σ σ' hp =>
+    obtain ⟨g', rfl⟩ : ∃ g', g = g' + 1 := ⟨g - 1, by omega⟩
+    exact Pulls.done (pull_lift g' hp (by omega))
+  | @more f σ σ1 σ' x xs hp _ ih =>
+    obtain ⟨g', rfl⟩ : ∃ g', g = g' + 1 := ⟨g - 1, by omega⟩
+    exact Pulls.more (pull_lift g' hp (by omega)) (ih (by omega))
+
 /-- the run of a mapped iterator, element by element: the source is called, and only if it yielded an element
     the mapper is called on it, before the source is called again; `ys` are the mapper's results in order -/
 inductive MapRun (it g : Val) (f : Nat) : St → List Val → St → Prop where
@@ -554,5 +565,20 @@ theorem ForRun.visits_all {env : Env} {x : String} {it : Val} {body : Expr} {F :
     | head => exact ⟨_, _, _, hp⟩
     | tail _ hv => exact ih v hv
   | brk hp hb => exact absurd hb (hnb _ _ _ _)
+
+/-! ## non-vacuity: a source that yields `7` (constant closure) and the identity mapper make one `more` step;
+    an exhausted source makes a `done` run -/
+def srcSeven : Val := .fn 0 [] (.tup [.bool, .int]) [.ret (some (.tuple [E_true, .litInt 7]))] [] none
+def srcEmpty : Val := .fn 1 [] (.tup [.bool, .int]) [.ret (some (.tuple [E_false, .litInt 0]))] [] none
+def idFn : Val := .fn 2 [("v", .int)] .int [.ret (some (.var "v"))] [] none
+
+example : pull 30 (mapped 3 .int srcSeven idFn (.int 0)) {} = (.ok (some (.int (BitVec.ofInt 64 7))), {}) :=
+  map_pull_some 10 3 .int srcSeven idFn (.int 0) (.int (BitVec.ofInt 64 7)) (.int (BitVec.ofInt 64 7)) {} {} {}
+    (by simp [callFn, srcSeven, calleeEnv, evalSeq, evalStmt, eval, evalList, E_true, tryCatchS, bind_def, pure_def, throwS])
+    (by simp [callFn, idFn, calleeEnv, evalSeq, evalStmt, eval, Env.lookup, frameLookup, tryCatchS, bind_def, pure_def, throwS])
+
+example : MapRun srcEmpty idFn 10 {} [] {} :=
+  .done (rest := [.int (BitVec.ofInt 64 0)])
+    (by simp [callFn, srcEmpty, calleeEnv, evalSeq, evalStmt, eval, evalList, E_false, tryCatchS, bind_def, pure_def, throwS])
 
 end Ssl.C11
